@@ -393,6 +393,98 @@ fn plain_enumeration(c: &Combo, st: &mut Stats) -> Result<u64, String> {
     Ok(count)
 }
 
+// ------------------------------------------------------------------------------------------
+// starvation: one channel is held back between two of its packets while other channels send
+// `gap` packets (whole messages); its message must still be delivered on its last packet.
+// Deterministic family: victim length x position of the gap x gap size x traffic shape.
+
+#[derive(Clone, Debug, Serialize, Deserialize, PartialEq, Eq, Hash)]
+pub struct Starve {
+    /// victim payload length (3 packets: 57 + 59 + rest)
+    pub len: usize,
+    /// the gap opens after this many victim packets (1 or 2)
+    pub after: usize,
+    /// packets sent by the other channels during the gap
+    pub gap: usize,
+    /// 0: one other channel sending maximal messages; 1: two other channels alternating one-packet
+    /// messages; 2: one other channel sending 2-packet messages
+    pub traffic: u8,
+}
+pub fn starvations(tier: Tier) -> Vec<Starve> {
+    let mut v = vec![];
+    let gaps: Vec<usize> = (0..=tier.pick(300, 1100)).chain([1024, 2048, 4096, 10_000]).collect();
+    for gap in gaps {
+        for after in [1usize, 2] {
+            for traffic in 0..3u8 {
+                v.push(Starve { len: 150, after, gap, traffic });
+            }
+        }
+    }
+    v
+}
+pub fn eval_starve(c: &Starve) -> Vec<Finding> {
+    let case = json!({"starve": c});
+    let mut fs = vec![];
+    let mut bad = |kind: &str, d: String| fs.push(Finding::new(format!("starve/kind={kind}"), d, case.clone()));
+    let r = par::catch(|| -> Result<Option<String>, String> {
+        let victim_payload: Vec<u8> = (0..c.len).map(|i| (i % 253) as u8).collect();
+        let wire = send(STREAM_CH[0], Command::Cbor, &victim_payload)?.ok_or("harness: sender refused the victim message")?;
+        let vp: Vec<&[u8]> = wire.chunks(64).collect();
+        let mut h = ChannelHandler::default();
+        let mut sent = 0usize;
+        for p in &vp[..c.after.min(vp.len() - 1)] {
+            if h.handle_packet(p).is_some() {
+                return Ok(Some("victim delivered before its last packet".into()));
+            }
+        }
+        // the gap: whole messages of other channels, each checked for delivery
+        let mut k = 0usize;
+        while sent < c.gap {
+            let (ch, len) = match c.traffic {
+                0 => (STREAM_CH[1], (MAX - 1).min(57 + 59 * (c.gap - sent).saturating_sub(1))),
+                1 => (STREAM_CH[1 + k % 2], 10 + k % 40),
+                _ => (STREAM_CH[1], 58 + k % 50),
+            };
+            let payload: Vec<u8> = (0..len).map(|i| (i as u8) ^ (k as u8)).collect();
+            let w = send(ch, Command::Ping, &payload)?.ok_or("harness: sender refused a gap message")?;
+            let ps: Vec<&[u8]> = w.chunks(64).collect();
+            for (i, p) in ps.iter().enumerate() {
+                let out = h.handle_packet(p);
+                sent += 1;
+                match (out, i + 1 == ps.len()) {
+                    (Some(m), true) if m.payload == payload && m.channel == ch => {}
+                    (Some(_), true) => return Ok(Some(format!("gap message {k} delivered with other content"))),
+                    (None, true) => return Ok(Some(format!("gap message {k} was not delivered"))),
+                    (Some(_), false) => return Ok(Some(format!("gap message {k} delivered early"))),
+                    (None, false) => {}
+                }
+            }
+            k += 1;
+        }
+        let rest = &vp[c.after.min(vp.len() - 1)..];
+        for (i, p) in rest.iter().enumerate() {
+            match (h.handle_packet(p), i + 1 == rest.len()) {
+                (Some(m), true) => {
+                    if m.payload != victim_payload || m.channel != STREAM_CH[0] {
+                        return Ok(Some("the held-back message was delivered with other content".into()));
+                    }
+                }
+                (None, true) => return Ok(Some(format!("the held-back message was not delivered on its last packet ({sent} packets of other channels in between)"))),
+                (Some(_), false) => return Ok(Some("the held-back message was delivered early".into())),
+                (None, false) => {}
+            }
+        }
+        Ok(None)
+    });
+    match r {
+        Err(p) => bad(&format!("panic/site={}", par::panic_site(&p)), p),
+        Ok(Err(e)) => bad("harness", e),
+        Ok(Ok(Some(d))) => bad("held-back-message-lost", d),
+        Ok(Ok(None)) => {}
+    }
+    fs
+}
+
 pub fn run(ctx: &Ctx) -> Result<Run, String> {
     let ss = singles(ctx.tier);
     let mut stats = par::sweep_cases(&ss, ctx.threads, |c, st| {
@@ -442,9 +534,18 @@ pub fn run(ctx: &Ctx) -> Result<Run, String> {
         Err(e) => st.finding(Finding::new("interleave/kind=harness-plan-failed", e, json!({"interleave": {"combo": c, "order": []}}))),
     });
     stats.merge(plain_stats);
+    // starvation family
+    let sv = starvations(ctx.tier);
+    let sv_stats = par::sweep_cases(&sv, ctx.threads, |c, st| {
+        st.case(c, true, "starvation");
+        st.count("starvation_gap_packets", c.gap as u64);
+        st.findings_from(eval_starve(c));
+    });
+    stats.merge(sv_stats);
+    stats.samples.push(json!({"starve": sv[sv.len() / 2]}));
     let mut run = Run::from_stats(
         "model_checking",
-        "single channel: every payload length 0..7700 and 65535/65536/70000 (all 9 commands x 4 channel ids at the boundary lengths, rotating command/channel and 3 content patterns elsewhere): written bytes parsed by the harness (64-byte packets, header layout, sequence numbers, zero padding, packet count) and fed to a fresh receiver; interleavings: stateright BFS whose state is the real ChannelHandler (cloned via the verif hook) plus the next-packet index per stream, over all combinations of 2, 3 and 4 concurrently transmitting channels with payload lengths from {0,57,58,116,117,175,234} (1..4 packets; thorough adds streams of 5 and 6 packets for 2 and 3 channels), channels sending two messages back to back, and one stray continuation packet for an idle channel at any point; deduplicated on (indices, hook snapshot); run twice with different thread counts; cross-checked by a hook-free enumeration of all complete interleavings for 2 and 3 channels",
+        "single channel: every payload length 0..7700 and 65535/65536/70000 (all 9 commands x 4 channel ids at the boundary lengths, rotating command/channel and 3 content patterns elsewhere): written bytes parsed by the harness (64-byte packets, header layout, sequence numbers, zero padding, packet count) and fed to a fresh receiver; interleavings: stateright BFS whose state is the real ChannelHandler (cloned via the verif hook) plus the next-packet index per stream, over all combinations of 2, 3 and 4 concurrently transmitting channels with payload lengths from {0,57,58,116,117,175,234} (1..4 packets; thorough adds streams of 5 and 6 packets for 2 and 3 channels), channels sending two messages back to back, and one stray continuation packet for an idle channel at any point; deduplicated on (indices, hook snapshot); run twice with different thread counts; cross-checked by a hook-free enumeration of all complete interleavings for 2 and 3 channels; starvation: a 3-packet message held back after its first / second packet while other channels send every number of packets 0..300 (thorough 0..1100) and 1024, 2048, 4096, 10000 as whole messages in three traffic shapes (maximal messages, two channels alternating single packets, 2-packet messages), each of which must be delivered too",
         true,
         stats,
     );
@@ -456,6 +557,10 @@ pub fn run(ctx: &Ctx) -> Result<Run, String> {
 }
 
 pub fn replay(_ctx: &Ctx, case: &Value) -> Result<Vec<Finding>, String> {
+    if let Some(sv) = case.get("starve") {
+        let c: Starve = serde_json::from_value(sv.clone()).map_err(|e| format!("bad C16 starvation case: {e}"))?;
+        return Ok(eval_starve(&c));
+    }
     if let Some(s) = case.get("single") {
         let c: Single = serde_json::from_value(s.clone()).map_err(|e| e.to_string())?;
         return Ok(eval_single(&c).0);
